@@ -6,6 +6,7 @@ toolchain go1.23.5
 
 require (
 	github.com/cnotch/ipchub v0.0.0
+	github.com/cnotch/scheduler v0.0.0-20200522024700-1d2da93eefc5
 	github.com/cnotch/xlog v0.0.0-20201208005456-cfda439cd3a0
 	pgregory.net/rapid v1.3.0
 )
@@ -14,7 +15,6 @@ require (
 	github.com/cnotch/apirouter v0.0.0-20200731232942-89e243a791f3 // indirect
 	github.com/cnotch/loader v0.0.0-20200405015128-d9d964d09439 // indirect
 	github.com/cnotch/queue v0.0.0-20201224060551-4191569ce8f6 // indirect
-	github.com/cnotch/scheduler v0.0.0-20200522024700-1d2da93eefc5 // indirect
 	github.com/emitter-io/address v1.0.0 // indirect
 	github.com/gorilla/websocket v1.4.2 // indirect
 	github.com/kelindar/process v0.0.0-20170730150328-69a29e249ec3 // indirect
